@@ -14,8 +14,19 @@
      - the escape \z, and every escape letter not listed in [simple_escape];
      - an exponent with an explicit plus sign (1e+5), hexadecimal exponents (0x1p4), a
        hexadecimal or binary numeral ending in '.' (0x1.);
-     - a numeral directly followed by letters/digits/dots that do not belong to it
-       (3x, 1..2, 1.5.5, 0x1g): the maximal run must be one numeral;
+     - a numeral run that is not one complete numeral.  The run is the one Lua 5.2's llex.c
+       read_numeral consumes: the first digit (after an optional leading '.'), an optional x / X
+       directly after a first digit 0 (which switches the exponent letters from e E to p P), then
+       every hexadecimal digit (0-9 a-f A-F), every '.', every exponent letter, and a sign
+       directly after an exponent letter; the first other byte ends the run.  So 1then is the
+       number 1 and the keyword then, 3x is 3 and the name x, 0x1g is 0x1 and g, 1or 2 is 1 or 2;
+       but 9do (run 9d), 1and (1a), 1end / 1else (1e), 1for (1f), 1..2, 1.5.5, 0x1p (no hexadecimal
+       exponents), 0b12 (the binary prefix 0b / 0B of PICO-8 consists of run bytes: b is a
+       hexadecimal digit) and .0x5 (read_numeral sees the 0x after the '.': the run is .0x5) are
+       not numerals: undefined.  (This was Lua 5.1's rule before - the run took ALL letters and
+       digits - under which 1then and 3x were undefined.  On a run that is no numeral [num_run]
+       may extend further than read_numeral, which reads an exponent letter that directly follows
+       an exponent and its sign as a hexadecimal digit: 1ee+ ; the result is None either way.);
      - '::' that is not the opening or closing of an unspaced label ::name:: ;
      - an operator of the symbol set directly followed by '=' where later PICO-8 versions
        have a compound assignment operator that is not in the dialect's set (\= ^= |= &= ^^=
@@ -140,12 +151,13 @@ Definition digit_val (c : Z) : Z :=
   if is_digit c then c - 48 else if is_lower_hex c then c - 87 else c - 55.
 Definition digits_val (base : Z) (ds : list Z) : Z := fold_left (fun a c => a * base + digit_val c) ds 0.
 
-(* the maximal run a numeral can occupy: letters, digits, dots, and a sign directly after the
-   exponent letter (e/E; p/P in hexadecimal) *)
+(* the loop of Lua 5.2's read_numeral (llex.c): an exponent letter (e/E; p/P in hexadecimal) is
+   read together with a sign that directly follows it; otherwise a hexadecimal digit or a dot is
+   read; anything else ends the run *)
 Fixpoint num_run (hexmode after_expo : bool) (s : list Z) : list Z * list Z :=
   match s with
   | c :: r =>
-    if is_alnum c || (c =? 46) then
+    if is_hex c || (c =? 46) || (hexmode && ((c =? 112) || (c =? 80))) then
       let ex := if hexmode then (c =? 112) || (c =? 80) else (c =? 101) || (c =? 69) in
       let '(a, b) := num_run hexmode ex r in (c :: a, b)
     else if after_expo && ((c =? 43) || (c =? 45)) then
@@ -211,6 +223,23 @@ Definition spec_numeral (d : list Z) : option (Z * Z) :=
 
 Definition is_hex_prefix (s : list Z) : bool :=
   match s with 48 :: x :: _ => (x =? 120) || (x =? 88) | _ => false end.
+
+(* read_numeral from its first digit: the digit, 0x / 0X switches to hexadecimal, then the loop
+   (the binary prefix 0b / 0B of PICO-8 needs nothing: b and B are hexadecimal digits) *)
+Definition num_body (s : list Z) : list Z * list Z :=
+  match s with
+  | z :: x :: r =>
+    if is_hex_prefix s then let '(a, b) := num_run true false r in (z :: x :: a, b)
+    else num_run false false s
+  | _ => num_run false false s
+  end.
+
+(* the lexer reads a leading '.' itself and then calls read_numeral on the digit after it *)
+Definition num_split (s : list Z) : list Z * list Z :=
+  match s with
+  | c :: r => if c =? 46 then let '(a, b) := num_body r in (c :: a, b) else num_body s
+  | [] => ([], [])
+  end.
 
 (* ---------- quoted strings *)
 Definition simple_escape (c : Z) : option Z :=
@@ -379,7 +408,7 @@ Definition spec_symbol (s : list Z) : option (stok * list Z) :=
   end.
 
 Definition spec_number (s : list Z) : option (stok * list Z) :=
-  let '(run, rest) := num_run (is_hex_prefix s) false s in
+  let '(run, rest) := num_split s in
   match spec_numeral run with
   | Some (n, d) => Some (mk_stok SNumber run run n d (-1) 0 0, rest)
   | None => None
